@@ -9,7 +9,10 @@ import (
 	"encoding/json"
 	"fmt"
 	"math"
+	"runtime"
 	"sort"
+	"sync"
+	"sync/atomic"
 	"time"
 
 	tally "github.com/uber-go/tally/v4"
@@ -449,6 +452,21 @@ func init() {
 				}
 				return
 			}
+			var sp struct {
+				Stress bool `json:"stress"`
+				Cached bool `json:"cached"`
+				Dur    bool `json:"durations"`
+			}
+			if json.Unmarshal(ctx.Replay, &sp) == nil && sp.Stress {
+				ctx.Case(sp, "", "recording-overlapping-report-passes", "")
+				for k := 0; k < 100; k++ {
+					if f := c03Stress(uint64(k), sp.Cached, sp.Dur); f != "" {
+						ctx.Fail("per_bucket_counts_add_up_to_samples", f, sp, nil)
+						return
+					}
+				}
+				return
+			}
 			var c c03Case
 			if err := json.Unmarshal(ctx.Replay, &c); err != nil {
 				fatal(err)
@@ -479,8 +497,159 @@ func init() {
 				ctx.Fail("one_correct_bucket_tiling_no_panic", "histograms created concurrently: "+fail, c, nil)
 			}
 		}
+		// conservation "as in C01" while recording and reporting overlap: samples are recorded in short
+		// bursts while three goroutines run report passes; after each burst recording pauses until every
+		// reporting goroutine has completed two more passes, and then the per-bucket counts delivered so
+		// far must equal the samples recorded so far (direct predicate; the schedule is the runtime's)
+		nst := ctx.N(12, 300)
+		for k := 0; k < nst; k++ {
+			cs := map[string]interface{}{"stress": true, "cached": k%2 == 1, "durations": k%4 >= 2}
+			f := c03Stress(ctx.R.U64(), k%2 == 1, k%4 >= 2)
+			ctx.Case(cs, "", "recording-overlapping-report-passes", "")
+			if f != "" {
+				ctx.Fail("per_bucket_counts_add_up_to_samples", f, cs, nil)
+				break
+			}
+		}
 		for k, v := range classes {
 			ctx.Res.Histogram[k] = v
 		}
 	}
+}
+
+// c03Sink adds up delivered samples per bucket upper bound (plain and cached interface).
+type c03Sink struct {
+	mu  sync.Mutex
+	cnt map[float64]int64 // upper bound (seconds for durations) -> samples delivered
+}
+
+func (s *c03Sink) add(upper float64, n int64) {
+	s.mu.Lock()
+	s.cnt[upper] += n
+	s.mu.Unlock()
+}
+func (s *c03Sink) Capabilities() tally.Capabilities                       { return caps{true, true} }
+func (s *c03Sink) Flush()                                                 {}
+func (s *c03Sink) ReportCounter(string, map[string]string, int64)         {}
+func (s *c03Sink) ReportGauge(string, map[string]string, float64)         {}
+func (s *c03Sink) ReportTimer(string, map[string]string, time.Duration)   {}
+func (s *c03Sink) ReportHistogramValueSamples(_ string, _ map[string]string, _ tally.Buckets, _, hi float64, n int64) {
+	s.add(hi, n)
+}
+func (s *c03Sink) ReportHistogramDurationSamples(_ string, _ map[string]string, _ tally.Buckets, _, hi time.Duration, n int64) {
+	s.add(float64(hi), n)
+}
+
+type c03SinkC struct{ *c03Sink }
+type c03Hist struct{ s *c03Sink }
+type c03Bucket struct {
+	s  *c03Sink
+	hi float64
+}
+
+func (b c03Bucket) ReportSamples(n int64) { b.s.add(b.hi, n) }
+func (h c03Hist) ValueBucket(_, hi float64) tally.CachedHistogramBucket {
+	return c03Bucket{h.s, hi}
+}
+func (h c03Hist) DurationBucket(_, hi time.Duration) tally.CachedHistogramBucket {
+	return c03Bucket{h.s, float64(hi)}
+}
+func (c c03SinkC) AllocateCounter(string, map[string]string) tally.CachedCount { return nil }
+func (c c03SinkC) AllocateGauge(string, map[string]string) tally.CachedGauge   { return nil }
+func (c c03SinkC) AllocateTimer(string, map[string]string) tally.CachedTimer   { return nil }
+func (c c03SinkC) AllocateHistogram(string, map[string]string, tally.Buckets) tally.CachedHistogram {
+	return c03Hist{c.c03Sink}
+}
+
+func c03Stress(seed uint64, cached, dur bool) string {
+	r := NewRng(seed)
+	sink := &c03Sink{cnt: map[float64]int64{}}
+	opts := tally.ScopeOptions{OmitCardinalityMetrics: true}
+	if cached {
+		opts.CachedReporter = c03SinkC{sink}
+	} else {
+		opts.Reporter = sink
+	}
+	scope, closer := tally.VerifNewRootScope(opts, 0, 2)
+	defer closer.Close()
+	bounds := []float64{1, 2, 3, 4, 5, 6, 7}
+	var h tally.Histogram
+	if dur {
+		var db tally.DurationBuckets
+		for _, b := range bounds {
+			db = append(db, time.Duration(b))
+		}
+		h = scope.Tagged(map[string]string{"a": "b"}).Histogram("h", db)
+	} else {
+		h = scope.Tagged(map[string]string{"a": "b"}).Histogram("h", tally.ValueBuckets(bounds))
+	}
+	stop := make(chan struct{})
+	var rg sync.WaitGroup
+	var done [3]int64
+	for p := 0; p < 3; p++ {
+		p := p
+		rg.Add(1)
+		go func() {
+			defer rg.Done()
+			for {
+				select {
+				case <-stop:
+					return
+				default:
+				}
+				tally.VerifReportOnce(scope)
+				atomic.AddInt64(&done[p], 1)
+			}
+		}()
+	}
+	defer func() { close(stop); rg.Wait() }()
+	rec := map[float64]int64{} // by the upper bound of the bucket the sample belongs to
+	upper := func(v float64) float64 {
+		for _, b := range bounds {
+			if v <= b {
+				return b
+			}
+		}
+		if dur {
+			return float64(time.Duration(math.MaxInt64))
+		}
+		return math.MaxFloat64
+	}
+	for e := 0; e < 250; e++ {
+		for j, nj := 0, r.Range(1, 3); j < nj; j++ {
+			v := float64(r.Range(0, 8)) // a bound, or beyond the last one
+			if dur {
+				h.RecordDuration(time.Duration(v))
+			} else {
+				h.RecordValue(v)
+			}
+			rec[upper(v)]++
+		}
+		var base [3]int64
+		for p := range base {
+			base[p] = atomic.LoadInt64(&done[p])
+		}
+		for p := range base {
+			for atomic.LoadInt64(&done[p]) < base[p]+2 {
+				runtime.Gosched()
+			}
+		}
+		sink.mu.Lock()
+		bad := ""
+		for u, n := range rec {
+			if sink.cnt[u] != n {
+				bad = fmt.Sprintf("recording overlapped report passes; after burst %d recording paused until every reporting goroutine had completed two more passes: bucket with upper bound %v has %d samples recorded, %d delivered", e, u, n, sink.cnt[u])
+			}
+		}
+		for u, n := range sink.cnt {
+			if n != 0 && rec[u] == 0 {
+				bad = fmt.Sprintf("bucket with upper bound %v: %d samples delivered, none recorded", u, n)
+			}
+		}
+		sink.mu.Unlock()
+		if bad != "" {
+			return bad
+		}
+	}
+	return ""
 }
